@@ -33,7 +33,7 @@ def run(ctx, args):
         raise Infra("pins driver printed no summary:\n" + out[-2000:])
     ncases = int(m.group(1))
     fails, r = ctx.validate("Trace_Pins", "Trace_Pins.cfg", trace)
-    warns = re.findall(r'<<"WARN", (\d+), "([^"]*)", "([^"]*)">>', r["out"])
+    warns = [(w["line"], w["case"], w["what"]) for w in r["warns"]]
     ctx.traces = ncases
     ctx.evaluations = ncases
     ctx.distinct = ncases
